@@ -71,4 +71,9 @@ func ibcRecv(c *lib.Chain, ctx sdk.Context, seq uint64, channel, denom, amount, 
 	return false, string(ack.Acknowledgement())
 }
 
+const (
+	ibcChannel = "channel-0"
+	ibcTarget  = "ibc/0/px" // FxTarget of that channel, bech32 prefix px on the other side
+)
+
 func escrowAddr(channel string) sdk.AccAddress { return transfertypes.GetEscrowAddress("transfer", channel) }
